@@ -9,7 +9,7 @@ open Generated
 /-- The global acquisition order (smaller = taken first).  Reading of the order:
     `Shutdown` takes `Server.mu` and then waits for the in-flight handlers; a handler (and the ticker goroutine, counted by the
     store's wait group) works its way down: rate-limit mutex / store mutex → cache of repositories → repository token →
-    repository wait group → (memory store: upload mutex →) repository mutex → cache of upload sessions →
+    repository wait group → index lock of the server (manifest put/delete, index reads) → (memory store: upload mutex →) repository mutex → cache of upload sessions →
     (directory store: upload mutex, taken by the session cleanup under the cache mutex). -/
 def rankTable : List (String × Nat) := [
   ("Server.mu", 0),
@@ -26,6 +26,7 @@ def rankTable : List (String × Nat) := [
   ("memRepo.wgBlock", 40),
   ("dirRepo.wg", 50),
   ("memRepo.wg", 50),
+  ("Server.indexMu", 55),
   ("memRepoUpload.mu", 60),
   ("dirRepo.mu", 70),
   ("memRepo.mu", 70),
